@@ -27,7 +27,7 @@ func init() {
 				"'above the limit' exactly when that stamp is set and not older than the interval.",
 			NotCovered: "that the ring buffer of golibs behaves as a ring (trusted), so that R7's structure (limit+1 slots, push before read, comparison with " +
 				"the interval) yields an exact sliding window; the expiry timing of the backoff tables (temporal facts outside static reach); the allowlist's own matching.",
-			Rules: map[string]string{"C09-R14": "configuration objects handed to constructors that keep them are built per server (hand-off rule shared with C15-R6)", "C09-RC": "class rules (error chains, shadowed results, character classes, crossed arguments, pool constructors, array pools, loop completeness, loop-carried buffers, replacing setters, complete clones, Grow arithmetic, pooled-buffer escape, sorted searches, fresh decode targets, per-iteration objects, whole-message copies, codec guards) over the packages this property rests on", "C09-R13": "backendpb.RateLimitSettings.toInternal: the profile's own limiter exactly when present and enabled (an empty subnet list is not a reason to fall back to the global one)", "C09-R12": "DynamicAllowlist.IsAllowed: exempt exactly when some persistent or dynamic subnet contains the address; the dynamic part is read under the lock; constructor field map", "C09-R11": "list setters (DynamicAllowlist.Update, …) replace the list: no append onto the previous contents of the same field", "C09-R1": "middleware gate tables", "C09-R2": "limiter check order, family selection, keying", "C09-R3": "profile limiter table",
+			Rules: map[string]string{"C09-R15": "NewBackoff: request counters expire after Period, hit counters after Duration", "C09-R14": "configuration objects handed to constructors that keep them are built per server (hand-off rule shared with C15-R6)", "C09-RC": "class rules (error chains, shadowed results, character classes, crossed arguments, pool constructors, array pools, loop completeness, loop-carried buffers, replacing setters, complete clones, Grow arithmetic, pooled-buffer escape, sorted searches, fresh decode targets, per-iteration objects, whole-message copies, codec guards) over the packages this property rests on", "C09-R13": "backendpb.RateLimitSettings.toInternal: the profile's own limiter exactly when present and enabled (an empty subnet list is not a reason to fall back to the global one)", "C09-R12": "DynamicAllowlist.IsAllowed: exempt exactly when some persistent or dynamic subnet contains the address; the dynamic part is read under the lock; constructor field map", "C09-R11": "list setters (DynamicAllowlist.Update, …) replace the list: no append onto the previous contents of the same field", "C09-R1": "middleware gate tables", "C09-R2": "limiter check order, family selection, keying", "C09-R3": "profile limiter table",
 				"C09-R4": "window counter under its lock", "C09-R9": "builder wiring: the configured allowlist is the persistent part of the dynamic allowlist", "C09-R8": "the dynamic allowlist is replaced only after a successful load (a failed refresh keeps the previous allowlist)", "C09-R7": "window counter structure: the ring holds limit+1 time stamps; every event (also one that is dropped) is pushed before the oldest one is read; the event is above the limit iff the oldest kept stamp is set and within the interval", "C09-R5": "every estimated response is counted", "C09-R6": "configuration-to-limiter field map (each family's count, interval and key length under its own name)"},
 		}})
 }
@@ -73,6 +73,8 @@ func runC09(c *an.Ctx) {
 	// ---- R14: each server's middleware gets its own configuration object (its pool reads the server's protocol lazily)
 	c.Inf("C09-R14", "hand-off sweep", token.NoPos, "%d hand-offs of a fresh object to a function that keeps it examined in dnssvc and cmd", sharedRetainedArgs(c, "C09-R14", "dnssvc.", "cmd."))
 	c.Floor("C09-R12", 3)
+	c.Floor("C09-R15", 2)
+	c09BackoffTables(c)
 	c09AllowlistTable(c)
 	// ---- R11: an allowlist refresh replaces the dynamic part (a subnet dropped by the source stops being exempt)
 	if n := sharedReplaceNotAccumulate(c, "C09-R11", "dnsserver/ratelimit.", "consul.", "backendpb.", "agd."); n >= 1 {
@@ -791,5 +793,49 @@ func c09AllowlistTable(c *an.Ctx) {
 			}
 		})
 		c.Check(n > 0 && bad == "", "C09-R12", fnKey+" reads the dynamic part under its lock", fn.Pos(), "read under the lock that Update takes", bad)
+	}
+}
+
+
+// c09BackoffTables: the two expiring tables of the backoff limiter are created
+// with their own periods: request counters live for the counting period, hit
+// counters for the backoff duration (both as expiry and as clean-up interval).
+func c09BackoffTables(c *an.Ctx) {
+	const k = "dnsserver/ratelimit.NewBackoff"
+	fn := c.Fn(k)
+	if fn == nil {
+		c.Und("C09-R15", k+" table lifetimes", token.NoPos, "anchor not found")
+		return
+	}
+	c.Analysed(k)
+	want := map[string]string{"reqCounters": ".Period", "hitCounters": ".Duration"}
+	got := map[string]string{}
+	an.Instrs(fn, func(in ssa.Instruction) {
+		st, ok := in.(*ssa.Store)
+		if !ok {
+			return
+		}
+		typ, field, _, ok := an.FieldOf(st.Addr)
+		if !ok || typ != "dnsserver/ratelimit.Backoff" || want[field] == "" {
+			return
+		}
+		call, ok := st.Val.(*ssa.Call)
+		if !ok || !strings.HasSuffix(an.CalleeName(call), "go-cache.New") {
+			got[field] = "not a cache.New call"
+			return
+		}
+		var as []string
+		for _, a := range call.Call.Args {
+			ap, _ := an.AccessPath(a)
+			as = append(as, ap)
+		}
+		got[field] = strings.Join(as, ",")
+	})
+	for field, suffix := range want {
+		g := got[field]
+		parts := strings.Split(g, ",")
+		ok := len(parts) == 2 && strings.HasSuffix(parts[0], suffix) && strings.HasSuffix(parts[1], suffix)
+		c.Check(ok, "C09-R15", k+" "+field+" lifetime", fn.Pos(), "expiry and clean-up interval from "+suffix,
+			"the table is created with ("+g+") instead of its own period "+suffix+" twice")
 	}
 }
